@@ -154,7 +154,8 @@ def run_timeout(seed, task, out):
     sched = {'pool_seed': rng.getrandbits(32), 'salt': 0}
     cache = {}
     with cvcase.Scratch('c04t_') as wd:
-        m = cv_timeout.execute(case, wd, 'm', 1, {'salt': 0}, count_attempts=True)
+        m = cv_timeout.execute(case, wd, 'm', 1, {'salt': 0}, count_attempts=True,
+                               line_cap=cv_timeout.LINE_CAP['quick'])
         if not m.ok:
             out['invalid'] = True
             return case
